@@ -14,15 +14,16 @@
 (*   core4   ... every quadruple of 8 line kinds                           *)
 (*   delims  18 spellings of the delimiter word x strip x fd x blank,      *)
 (*           lines derived from the delimiter                              *)
-(*   two     two operators in six shapes (one command; redirections      *)
+(*   two     two operators in six shapes (one command; redirections        *)
 (*           first / in the middle; `;`, `&&`, `|`), same / different      *)
-(*           descriptors,                                                  *)
-(*           same / different delimiters                                   *)
+(*           descriptors, same / different delimiters                      *)
 (*   three   three operators                                               *)
-(*   places  22 placements (brace group, subshell, function called twice,  *)
-(*           for loop run twice, command substitution, pipelines, newline  *)
-(*           after | and &&, for-in word list, if, case, redirection on a  *)
-(*           compound command / function body, a second here-document,...) *)
+(*   places  25 placements: brace group, subshell, function called twice,  *)
+(*           for loop run twice, "$( )", pipelines, newline after | and    *)
+(*           &&, for-in word list, if / while / case, !, a command that    *)
+(*           never runs, redirection on a compound command / function      *)
+(*           body, exec, alias value, eval operand, a second document, ... *)
+(*   places3 the same with three lines of a small alphabet                 *)
 (*   bare    the script ends with the delimiter line, with and without a   *)
 (*           final newline                                                 *)
 (***************************************************************************)
@@ -63,9 +64,10 @@ ThreeOps == { <<Op(FALSE, "E", 0, FALSE), Op(TRUE, "'F'", 3, FALSE), Op(FALSE, "
 ThreeLines == {"$x", "E", "\tF"}
 
 Places == {"top", "top2", "seq", "comment", "brace", "sub", "func", "for", "subst", "pipeL", "pipeR",
-           "pipeNL", "andNL", "forin", "if", "case", "bredir", "fredir", "while", "bang", "never"}
+           "pipeNL", "andNL", "forin", "if", "case", "bredir", "fredir", "while", "bang", "never",
+           "alias", "eval", "exec"}
 PlaceOps == {<<Op(s, w, f, FALSE)>> : s \in BOOLEAN, w \in {"E", "'E'"}, f \in {0, 4}}
-PlaceShapes(p) == IF p \in {"bredir", "fredir"} THEN {"post"}
+PlaceShapes(p) == IF p \in {"bredir", "fredir", "exec"} THEN {"post"}
                   ELSE IF p = "top" THEN {"pre", "mid"}   \* top/post and top/cat are in core and delims
                   ELSE {"post", "cat"}
 PlaceLines == IF Deep = 1 THEN {"a", "$i$x", "E", "\tE", "probe k", "probe $i", "", "a\\", "\t$i"}
